@@ -182,6 +182,13 @@ def r5(ctx, prog):
     ctx.floor(R, 4)
 
 
+def r6(ctx, prog):
+    R = ctx.rule("C10.R6", "adopted pages go to the heap that asked (and was checked for no_reclaim): _mi_heap_by_tag(heap, tag) returns `heap` itself whenever the tag matches — "
+                           "otherwise pages of an exited thread land in a destroyable heap and mi_heap_destroy frees live blocks")
+    shared.heap_by_tag(ctx, R, prog)
+    ctx.floor(R, 3)
+
+
 def run(ctx):
     ctx.explanation = ("Static decision of C10's code-shaped necessary conditions on every CFG path of heap delete/absorb/destroy and of the ownership "
                        "queries: guards (compatibility, no_reclaim), ordering (must-pass-through), never-after-free, who-may-call for page abandonment. "
@@ -189,7 +196,7 @@ def run(ctx):
     for c in (["REL"] if ctx.tier == "quick" else ["REL", "SEC", "DBG"]):
         prog = ctx.prog(c)
         n0 = len(ctx.instances)
-        r1(ctx, prog); r2(ctx, prog); r3(ctx, prog); r4(ctx, prog); r5(ctx, prog)
+        r1(ctx, prog); r2(ctx, prog); r3(ctx, prog); r4(ctx, prog); r5(ctx, prog); r6(ctx, prog)
         if c != "REL":
             for i in ctx.instances[n0:]:
                 i["site"] += " [%s]" % c
